@@ -127,6 +127,14 @@ theorem default_output_valid (cap : Bool) (env : Env) (ws : List Str) (st : Stag
     ∃ P, Spec.parse (fmtRegExp (cfgPlain cap false) st.finalAst) = some (⟨false, false⟩, P) :=
   default_valid cap env ws st h hseg
 
+/-- **C07 (validity, all inputs, every subset of the class options × capturing groups × `-e` × `-i` × any anchors)**
+whatever expression `RegExp::from` keeps — with both anchors disabled one of three — the returned text is accepted by the
+model of `Regex::new`: a pattern that cannot be compiled is never returned under these settings -/
+theorem output_valid_any_anchor (cfg : Config) (hp : PlainPrintNA cfg) (env : Env) (ws : List Str) (st : Stages)
+    (h : regExpFrom cfg env ws = .ok st) (hseg : ∀ w ∈ storedCases cfg env ws, SegOK env w) (hws : ws ≠ []) :
+    ∃ P, Spec.parse (fmtRegExp cfg st.finalAst) = some (⟨cfg.ci, false⟩, P) :=
+  classes_valid_any_anchor cfg hp env ws st h hseg hws
+
 /-! ## syntactic validity at the literal level (generated escape lists) -/
 
 /-- **C07/C01 (literals)** for every code point, what the literal printer writes (the generated
